@@ -276,6 +276,10 @@ func c02NoChange(c *Ctx) {
 	}
 }
 
+type ackState struct{ set, noRow bool }
+
+func (a ackState) Key() string { return fmt.Sprintf("%v/%v", a.set, a.noRow) }
+
 func c02Delta(c *Ctx) {
 	const rule = "C02.delta"
 	getRow := mustFunc(c, "", "", "getRow")
@@ -303,6 +307,49 @@ func c02Delta(c *Ctx) {
 					}
 				}
 			}
+		}
+		// a statement is acknowledged only after its delta was stored; the one exception is
+		// "there is no such (live) row", decided by getRow's ok / the stored row's Deleted flag
+		{
+			rowDeleted := mustField(c, "proto/v1", "Row", "Deleted")
+			sc := c.Scope(fn)
+			h := an.THooks{}
+			h.Instr = func(in ssa.Instruction, st an.TState) an.TState {
+				s := st.(ackState)
+				if cl, ok := in.(ssa.CallInstruction); ok && an.CalleeIs(cl, kvPkg, "DB", "Set") {
+					s.set = true
+				}
+				return s
+			}
+			h.Branch = func(iff *ssa.If, side bool, st an.TState) an.TState {
+				s := st.(ackState)
+				cond, neg := an.StripNot(iff.Cond)
+				val := side != neg
+				if ex, ok := cond.(*ssa.Extract); ok && ex.Index == 0 {
+					if cl, ok := ex.Tuple.(*ssa.Call); ok && cl.Call.StaticCallee() == getRow && !val {
+						s.noRow = true
+					}
+				}
+				if rowDeleted != nil && an.FieldOfLoad(cond) == rowDeleted && val {
+					s.noRow = true
+				}
+				return s
+			}
+			exits := an.WalkTypestate(fn, ackState{}, h, sc)
+			good := len(exits) > 0
+			why := ""
+			for _, ex := range exits {
+				s := ex.St.(ackState)
+				if ex.ErrNil == 0 || s.set {
+					continue
+				}
+				if m == "Update" && s.noRow {
+					continue // UPDATE of a row that does not exist (any more): nothing to do
+				}
+				good = false
+				why = "the statement can be acknowledged at " + c.P.Pos(ex.Ret.Pos()) + " without its delta having been stored (and not because the row does not exist): e.g. an UPDATE that 'changes nothing' is skipped, so its write time is never recorded and an older conflicting statement later wins"
+			}
+			c.R.Cond(good, rule, name+": acknowledged only after the delta is stored", c.P.Pos(fn.Pos()), "every successful return follows the Set (Update: or the row does not exist)", why)
 		}
 		for _, call := range an.Calls(fn) {
 			if !an.CalleeIs(call, kvPkg, "DB", "Set") {
